@@ -27,7 +27,9 @@ class Spec(core.PropSpec):
     def gen_plan(self, seed, tier):
         st = core.Streams(seed)
         w = T.gen_world(st("world"))
-        return dict(world=w, via=st("ops").choice(["sampler", "batch_sampler"]))
+        ro = st("ops")
+        return dict(world=w, via=ro.choice(["sampler", "batch_sampler"]), reiterate=ro.random() < 0.3,
+                    foreign_epoch=ro.choice([None, None, None, 97]))
 
     def shrink_candidates(self, plan):
         yield from T.world_candidates(plan)
@@ -45,7 +47,17 @@ class Spec(core.PropSpec):
             return out
         cap = len(ref) + 50
         try:
-            hist, terminated = T.run_sampler(w, via=plan["via"], cap=cap)
+            hist, terminated = T.run_sampler(w, via=plan["via"], cap=cap, foreign_epoch=plan.get("foreign_epoch"))
+            hist = list(hist)
+            if plan.get("reiterate") and terminated:
+                # iterating the same sampler object again must give the same stream (every pass starts at the start epoch)
+                s_obj, s_log = T.run_sampler.last
+                hist2, term2 = T.run_sampler(w, via=plan["via"], cap=cap, sampler=s_obj, log=s_log)
+                out.count("fault:reiteration_of_same_object")
+                if not term2 or list(hist2) != hist:
+                    d2 = T.first_diff(T.main_projection(list(hist2), w["M"]), T.main_projection(T.reference(w), w["M"]))
+                    if d2 or not term2:
+                        out.violate("C04:second-pass-differs", f"budget={w['budget'][0]}", f"second iteration of the same InterleavedSampler object: {d2 or 'does not terminate'}")
         except T.Rejected as e:
             out.rejected = True
             out.ev("rejected", str(e)[:80])
@@ -87,6 +99,10 @@ class Spec(core.PropSpec):
             out.tags.append("short-last-batch" if not w["drop_last"] else "dropped-remainder")
         if w["dlbs"]:
             out.tags.append("drop_last_batch_size")
+        if w["main_kind"] == "dist":
+            out.tags.append("real-distributed-main-sampler")
+        if plan.get("foreign_epoch") is not None:
+            out.tags.append("foreign-epoch-state-before-run")
         if n_ep > 1:
             out.tags.append("crossed-epoch-boundary")
         if any(e[0] == "out" and e[1] >= M for e in hist):
